@@ -229,7 +229,9 @@ pub enum Op {
     Dir,
     /// recover a *copy* from the image after `k` OS-level operations plus `cut` bytes of the next
     /// `instant`: for a power-loss image, the number of OS operations done when power was lost
-    Crash { k: usize, cut: usize, pol: Pol, instant: Option<usize>, drop: Vec<u64>, zero: Vec<(u64, u64)>, fail: Option<u64> },
+    Crash { k: usize, cut: usize, pol: Pol, instant: Option<usize>, drop: Vec<u64>, zero: Vec<(u64, u64)>, fail: Option<u64>, undone: usize },
+    // `undone`: for a power-loss image, how many of the unlinks issued since the last fsync of the
+    // directory (the LAST ones, directory operations persisting in order) were not durable
     /// drop the log (the `BufWriter` flushes)
     Close,
     /// remember / restore the directory content (log must be closed)
@@ -274,8 +276,11 @@ impl Op {
             Op::Range { q, lo, hi } => format!("range {} {} {}", hex(q.as_bytes()), lo.tok(), hi.tok()),
             Op::State => "state".into(),
             Op::Dir => "dir".into(),
-            Op::Crash { k, cut, pol, instant, drop, zero, fail } => {
+            Op::Crash { k, cut, pol, instant, drop, zero, fail, undone } => {
                 let mut s = format!("crash {} {} {}", k, cut, pol.tok());
+                if *undone > 0 {
+                    s.push_str(&format!(" undone={}", undone));
+                }
                 if let Some(i) = instant {
                     s.push_str(&format!(" instant={}", i));
                 }
@@ -338,6 +343,7 @@ impl Op {
                 instant: kv("instant").and_then(|v| v.parse().ok()),
                 drop: kv("drop").map(|v| v.split(',').filter_map(|x| x.parse().ok()).collect()).unwrap_or_default(),
                 fail: kv("fail").and_then(|v| v.parse().ok()),
+                undone: kv("undone").and_then(|v| v.parse().ok()).unwrap_or(0),
                 zero: kv("zero").map(|v| v.split(',').filter_map(|x| x.split_once(':').and_then(|(a, b)| Some((a.parse().ok()?, b.parse().ok()?)))).collect()).unwrap_or_default(),
             }),
             ["append", q, p, rest @ ..] => Some(Op::Append {
